@@ -15,17 +15,29 @@ _limit = st.sampled_from([1, 2, 4, 8, 16])
 _limit0 = st.sampled_from([0, 0]) | _limit
 
 
+CARRIERS = ['set', 'inplace+load', 'replace-limits+load', 'replace-network+load']   # see checks/c20.py
+
+
 @st.composite
 def file_case(draw):
     n = draw(st.integers(1, 3))
+    conns = []
+    for _ in range(n):
+        conn = [draw(st.sampled_from([200, 1500, 5000, 12000])), draw(st.sampled_from([0, 0, 300, 1500]))]
+        # the transfer task is cancelled (and its connection closed, as the transfer manager does for an abort)
+        # this many ms after the transfer started
+        cancel = draw(st.sampled_from([0, 0, 0, 5, 100, 700, 1203, 2500]))
+        if cancel:
+            conn.append(cancel)
+        conns.append(conn)
     return {
         't': 'file',
         'upload': draw(st.booleans()),
         'limit': draw(_limit0),
-        'conns': [[draw(st.sampled_from([200, 1500, 5000, 12000])), draw(st.sampled_from([0, 0, 300, 1500]))]
-                  for _ in range(n)],
+        'conns': conns,
         'changes': [list(x) for x in draw(st.lists(
-            st.tuples(st.sampled_from([50, 400, 1000, 2500, 6000]), _limit0), max_size=3))],
+            st.tuples(st.sampled_from([50, 400, 1000, 2500, 6000]), _limit0, st.integers(0, len(CARRIERS) - 1)),
+            max_size=3))],
     }
 
 
@@ -34,6 +46,20 @@ def enumerated():
         for l0, l1 in ((8, 1), (1, 8), (4, 0), (0, 2), (2, 2)):
             yield {'t': 'file', 'upload': upload, 'limit': l0, 'conns': [[12000, 0]], 'changes': [[1000, l1]]}
             yield {'t': 'file', 'upload': upload, 'limit': l0, 'conns': [[12000, 0], [5000, 1500]], 'changes': [[1000, l1]]}
+        # the same limit changes made through the settings (changed in place / section replaced) + load_speed_limits()
+        for carrier in (1, 2, 3):
+            for l0, l1 in ((0, 2), (8, 1), (1, 0)):
+                yield {'t': 'file', 'upload': upload, 'limit': l0, 'conns': [[12000, 0], [5000, 1500]],
+                       'changes': [[1000, l1, carrier]]}
+        # one of two / three transfers that share the limiter is aborted while all of them wait for tokens; a later
+        # transfer starts after the abort
+        for lim_ in (1, 4):
+            for victim in (0, 1):
+                for cancel in (1203, 2500):
+                    conns = [[12000, 0], [12000, 0], [1500, 3000]]
+                    conns[victim] = conns[victim] + [cancel]
+                    yield {'t': 'file', 'upload': upload, 'limit': lim_, 'conns': conns, 'changes': []}
+            yield {'t': 'file', 'upload': upload, 'limit': lim_, 'conns': [[12000, 0, 700], [1500, 1500]], 'changes': []}
 
 
 def run_file_case(case, res: CaseResult):
@@ -53,7 +79,8 @@ def run_file_case(case, res: CaseResult):
     conns = []
     for c in (case.get('conns') or [])[:3]:
         try:
-            conns.append((max(1, min(20000, int(c[0]))), max(0, min(5000, int(c[1]))) / 1000.0))
+            cancel = max(0, min(20000, int(c[2]))) / 1000.0 if len(c) > 2 else 0.0
+            conns.append((max(1, min(20000, int(c[0]))), max(0, min(5000, int(c[1]))) / 1000.0, cancel))
         except Exception:
             continue
     if not conns:
@@ -61,22 +88,26 @@ def run_file_case(case, res: CaseResult):
     changes = []
     for ch in (case.get('changes') or [])[:3]:
         try:
-            changes.append((max(1, min(20000, int(ch[0]))) / 1000.0, lim(ch[1])))
+            carrier = int(ch[2]) % len(CARRIERS) if len(ch) > 2 else 0
+            changes.append((max(1, min(20000, int(ch[0]))) / 1000.0, lim(ch[1]), carrier))
         except Exception:
             continue
     changes.sort()
     tmp = tempfile.mkdtemp(prefix='vfw-c20-', dir='/dev/shm' if os.path.isdir('/dev/shm') else None)
     events = []     # (time, nbytes) bytes moved by the library
     timeline = []
+    carriers_used = []
+    cancelled = {}  # transfer -> seconds after t0 at which its task was cancelled in mid-transfer
+    conn_of = {}
     out = {}
     try:
         async def main(world):
             loop = world.loop
+            from aioslsk.network.connection import CloseReason
+            from aioslsk.settings import NetworkLimitSettings
             settings = simworld.mk_settings('me')
-            if upload:
-                settings.network.limits.upload_speed_kbps = limit0
-            else:
-                settings.network.limits.download_speed_kbps = limit0
+            mine = 'upload_speed_kbps' if upload else 'download_speed_kbps'
+            setattr(settings.network.limits, mine, limit0)
             network = Network(settings, EventBus())
             await network.initialize()
             t0 = loop.time()
@@ -84,8 +115,42 @@ def run_file_case(case, res: CaseResult):
             active = set()
             finish = {}
             at_change = {'n': 0}
+            tasks = []
 
-            async def one(i, size, start):
+            def apply_limit(l, carrier):
+                name = CARRIERS[carrier]
+                if name == 'set':
+                    if upload:
+                        network.set_upload_speed_limit(l)
+                    else:
+                        network.set_download_speed_limit(l)
+                    return
+                if name == 'inplace+load':
+                    setattr(settings.network.limits, mine, l)
+                elif name == 'replace-limits+load':
+                    settings.network.limits = NetworkLimitSettings(**{mine: l})
+                else:
+                    settings.network = settings.network.model_copy(
+                        update={'limits': NetworkLimitSettings(**{mine: l})})
+                network.load_speed_limits()
+
+            def abort(i):
+                if not tasks[i].done() and i in active:
+                    cancelled[i] = round(loop.time() - t0, 6)
+                    tasks[i].cancel()
+
+            async def one(i, size, start, cancel_after):
+                try:
+                    await transfer(i, size, start, cancel_after)
+                except asyncio.CancelledError:
+                    # what TransferManager._upload_file/_download_file do when the transfer task is cancelled
+                    active.discard(i)
+                    if i in cancelled and i in conn_of:
+                        await conn_of[i].disconnect(CloseReason.REQUESTED)
+                    else:
+                        raise
+
+            async def transfer(i, size, start, cancel_after):
                 if start:
                     await asyncio.sleep(start)
                 peer = world.add_peer('p%d' % i)
@@ -96,8 +161,11 @@ def run_file_case(case, res: CaseResult):
                     out['setup_failed'] = True
                     return
                 conn = cands[0]
+                conn_of[i] = conn
                 path = os.path.join(tmp, 'f%d' % i)
                 active.add(i)
+                if cancel_after:
+                    loop.call_later(cancel_after, abort, i)
                 if upload:
                     with open(path, 'wb') as fh:
                         fh.write(bytes(size))
@@ -112,28 +180,29 @@ def run_file_case(case, res: CaseResult):
                 finish[i] = loop.time()
 
             async def changer():
-                for at, l in changes:
+                for at, l, carrier in changes:
                     delay = t0 + at - loop.time()
                     if delay > 0:
                         await asyncio.sleep(delay)
                     at_change['n'] += len(active)
-                    if upload:
-                        network.set_upload_speed_limit(l)
-                    else:
-                        network.set_download_speed_limit(l)
+                    apply_limit(l, carrier)
+                    carriers_used.append(CARRIERS[carrier])
                     timeline.append((loop.time(), l))
-            tasks = [asyncio.ensure_future(one(i, s, st_)) for i, (s, st_) in enumerate(conns)]
+            tasks.extend(asyncio.ensure_future(one(i, s, st_, cn_)) for i, (s, st_, cn_) in enumerate(conns))
             ch = asyncio.ensure_future(changer())
             done, pending = await asyncio.wait(tasks, timeout=200.0)
             await asyncio.wait([ch], timeout=30.0)
             out['pending'] = len(pending)
+            out['pending_ids'] = sorted(i for i, t in enumerate(tasks) if t in pending)
             out['finish'] = dict(finish)
             out['active_at_change'] = at_change['n']
             out['t0'] = t0
             for t in pending:
                 t.cancel()
+            if pending:
+                await asyncio.wait(pending, timeout=5.0)
             for t in done:
-                if t.exception() is not None:
+                if not t.cancelled() and t.exception() is not None:
                     out['exc'] = repr(t.exception())
             await network.disconnect()
 
@@ -195,25 +264,38 @@ def run_file_case(case, res: CaseResult):
         else:
             kind = 'C20/window-excess:limit-change:gt128'
         res.violate(kind, f'file tier ({"send_file" if upload else "receive_file"}): excess={ex:.1f} bytes in window '
-                          f'[{events[a][0]:.4f},{events[b][0]:.4f}] moved={prefix[b + 1] - prefix[a]} timeline={timeline}')
+                          f'[{events[a][0]:.4f},{events[b][0]:.4f}] moved={prefix[b + 1] - prefix[a]} timeline={timeline} '
+                          f'changes made by {carriers_used}')
     # not throttled once the limit is 0: everything still running finishes within 1 s of the last change to unlimited
     if timeline[-1][1] == 0:
         c = timeline[-1][0]
         late = [i for i, t in out.get('finish', {}).items() if t > c + 1.0 and t > out['t0'] + conns[i][1] + 1.0]
         if late or out.get('pending'):
             res.violate('C20/throttled-although-unlimited', f'transfers {late} pending={out.get("pending")} still moving '
-                        f'more than 1 s after the limit was removed at {c:.3f}; timeline={timeline}')
+                        f'more than 1 s after the limit was removed at {c:.3f}; timeline={timeline} changes made by '
+                        f'{carriers_used}; transfers aborted by the case (transfer: s after start) = {cancelled}')
     elif out.get('pending'):
-        res.violate('C20/file-transfer-stalled', f'{out["pending"]} send_file/receive_file calls not finished after 200 s')
+        # transfers that the case aborts are never counted as pending: these are the others that share the limiter
+        kind = 'C20/file-transfer-stalled' + (':after-cancelled-transfer' if cancelled else '')
+        res.violate(kind, f'send_file/receive_file calls {out.get("pending_ids")} not finished after 200 s (at most '
+                          f'60 kB at >= 1 KiB/s); timeline={timeline}; transfers aborted by the case (transfer: s '
+                          f'after the start of the case) = {cancelled}')
     for e in loop_errors:
         res.violate(f'C20/loop-error:{e["exc_type"]}', str(e)[:300])
         break
-    res.nontrivial = bool(changes and out.get('active_at_change'))
+    shared_abort = bool(cancelled) and len(conns) > 1 and any(l for _, l in timeline)
+    res.nontrivial = bool((changes and out.get('active_at_change')) or shared_abort)
     res.label('file-tier', 'file:' + ('upload' if upload else 'download'))
-    if res.nontrivial:
+    if changes and out.get('active_at_change'):
         res.label('file:limit-change-mid-transfer')
+    for name in sorted(set(carriers_used)):
+        res.label('file:carrier:' + name)
+    if cancelled:
+        res.label('file:transfer-aborted-mid-transfer')
+    if shared_abort:
+        res.label('file:abort-while-limiter-shared')
 
 
 def shard_file(ctx):
-    ctx.enumerate(enumerated())
+    # enumerated() is run by checks/c20.py run_shard before the generated tiers
     ctx.explore(file_case(), 50 if ctx.tier == 'quick' else 2500, salt=5)
